@@ -7,6 +7,8 @@ import (
 	"fmt"
 	"os"
 	"path/filepath"
+	"runtime/debug"
+	"runtime/pprof"
 	"sort"
 	"strings"
 	"time"
@@ -40,10 +42,18 @@ func main() {
 		budget     = flag.Duration("budget", 0, "wall-clock budget per harness (0 = none)")
 		extraInits = flag.String("init", "", "additional packages whose init() is executed")
 		params     = paramFlag{}
+		cpuprof    = flag.String("cpuprofile", "", "write a CPU profile")
+		gcpct      = flag.Int("gcpercent", 100, "GOGC value")
 	)
 	flag.Var(params, "param", "harness parameter name=value (repeatable)")
 	flag.Parse()
+	debug.SetGCPercent(*gcpct)
 
+	if *cpuprof != "" {
+		pf, _ := os.Create(*cpuprof)
+		pprof.StartCPUProfile(pf)
+		defer pprof.StopCPUProfile()
+	}
 	t0 := time.Now()
 	prog, pkgs, err := load(*repo, *hdir)
 	if err != nil {
@@ -177,6 +187,7 @@ func main() {
 		os.Stdout.Write(data)
 		fmt.Println()
 	}
+	pprof.StopCPUProfile()
 	os.Exit(exit)
 }
 
